@@ -2,10 +2,12 @@ package polynomial
 
 import (
 	"fmt"
+	"math/big"
 
 	"github.com/tuneinsight/lattigo/v6/circuits/common/polynomial"
 	"github.com/tuneinsight/lattigo/v6/core/rlwe"
 	"github.com/tuneinsight/lattigo/v6/schemes/bgv"
+	"github.com/tuneinsight/lattigo/v6/utils/bignum"
 )
 
 type Evaluator struct {
@@ -21,7 +23,7 @@ func NewEvaluator(params bgv.Parameters, eval *bgv.Evaluator) *Evaluator {
 		Parameters: params,
 		Evaluator: polynomial.Evaluator[uint64]{
 			Evaluator:         eval,
-			CoefficientGetter: CoefficientGetter{values: make([]uint64, params.MaxSlots())},
+			CoefficientGetter: CoefficientGetter{values: make([]uint64, params.MaxSlots()), t: params.PlaintextModulus()},
 		},
 		InvariantTensoring: eval.ScaleInvariant,
 	}
@@ -85,6 +87,19 @@ func (eval Evaluator) EvaluateFromPowerBasis(pb polynomial.PowerBasis, p interfa
 // [polynomial.CoefficientGetter][uint64] interface.
 type CoefficientGetter struct {
 	values []uint64
+	t      uint64 // plaintext modulus, to reduce negative coefficients (0: coefficients are taken as they are)
+}
+
+// residue returns the coefficient as an unsigned integer; a negative coefficient -c is t - (c mod t).
+func (c CoefficientGetter) residue(coeff *bignum.Complex) uint64 {
+	if c.t == 0 || coeff[0].Sign() >= 0 {
+		return coeff.Uint64()
+	}
+	abs, _ := new(big.Float).Neg(coeff[0]).Uint64()
+	if abs %= c.t; abs == 0 {
+		return 0
+	}
+	return c.t - abs
 }
 
 // GetVectorCoefficient return a slice []uint64 containing the k-th coefficient
@@ -105,7 +120,7 @@ func (c CoefficientGetter) GetVectorCoefficient(pol polynomial.PolynomialVector,
 			continue // absent coefficient (e.g. the skipped parity of an odd or even polynomial of a mixed vector): 0
 		}
 		for _, j := range mapping[i] {
-			values[j] = p.Coeffs[k].Uint64()
+			values[j] = c.residue(p.Coeffs[k])
 		}
 	}
 
@@ -114,5 +129,5 @@ func (c CoefficientGetter) GetVectorCoefficient(pol polynomial.PolynomialVector,
 
 // GetSingleCoefficient should return the k-th coefficient of Polynomial as the type uint64.
 func (c CoefficientGetter) GetSingleCoefficient(pol polynomial.Polynomial, k int) (value uint64) {
-	return pol.Coeffs[k].Uint64()
+	return c.residue(pol.Coeffs[k])
 }
